@@ -454,6 +454,7 @@ fn run_scenario(sc: &J) -> Vec<J> {
     let sh = new_shared();
     sh.lock().unwrap().log_io = sc["log_io"].as_bool().unwrap_or(false);
     sh.lock().unwrap().write_gated = sc["write_gated"].as_bool().unwrap_or(false);
+    sh.lock().unwrap().yield_after_write = sc["yield_after_write"].as_bool().unwrap_or(false);
     emit(&sh, json!({"ev":"Reset","kind":sc["kind"],"timeout_ms":sc["timeout_ms"].as_u64().unwrap_or(0)}));
     let conn = connect(&sh, sc["timeout_ms"].as_u64().unwrap_or(0), sc["max_queued"].as_u64().map(|x| x as usize));
     let mut run = Run {
